@@ -725,8 +725,18 @@ func c9Refusals(r *h.Result) error {
 		`sum_over_time({x="y"} | json [1m])`,
 		`count_over_time({x="y"} | json | unwrap v [1m])`,
 		`sum by (x) (stddev_over_time({x="y"} | json | unwrap v [1m]))`,
+		// only ClickHouse implements these (Gen.InternalAgg.vecRefused / planRefusals): handed over, they are refused
+		`stddev by (x) (rate({x="y"} | json [1m]))`,
+		`stdvar (count_over_time({x="y"} | json [1m]))`,
+		`topk(1, rate({x="y"} | json [1m]))`,
+		`bottomk(2, sum by (x) (rate({x="y"} | json [1m])))`,
+		`quantile_over_time(0.5, {x="y"} | json | unwrap v [1m])`,
 	} {
-		runs = append(runs, c9Case{Query: q, From: 0, To: 120e9, Batches: batches})
+		c := c9Case{Query: q, From: 0, To: 120e9, Batches: batches}
+		if strings.HasPrefix(q, "stddev ") || strings.HasPrefix(q, "stdvar ") || strings.Contains(q, "topk(") || strings.Contains(q, "bottomk(") || strings.HasPrefix(q, "quantile_over_time") {
+			c.Mode, c.Step = "internal-post", 60e9 // outside the plan serialiser of the `run` stream: the real Plan + Process only
+		}
+		runs = append(runs, c)
 	}
 	outs, err := c9RunChild(runs)
 	if err != nil {
@@ -734,7 +744,7 @@ func c9Refusals(r *h.Result) error {
 	}
 	for i, o := range outs {
 		r.Case("refusals:"+runs[i].Query, true)
-		if !(strings.HasPrefix(o.Skip, "process:") && strings.Contains(o.Skip, "not supported")) {
+		if !((strings.HasPrefix(o.Skip, "process:") || strings.HasPrefix(o.Skip, "plan:")) && strings.Contains(o.Skip, "not supported")) {
 			r.Violate("C09/unsupported-function-not-refused",
 				fmt.Sprintf("%s: the in-process engine has no case for the function and answered %q / %q instead of NotSupported (ClickHouse computes it)", runs[i].Query, o.Skip, o.Canon), runs[i])
 		}
